@@ -446,7 +446,7 @@ func c14Protowire(t *testing.T, cfg sb.Config, rec *sb.Rec, pool *sb.Pool, dl ti
 			}
 		}
 	}
-	total := 1500 / cfg.NShards
+	total := 15000 / cfg.NShards
 	if cfg.Thorough() {
 		total = 300000 / cfg.NShards
 	}
